@@ -898,6 +898,12 @@ func Run(r *mc.Run) {
 		})
 	removeScratchDirs()
 
+	// ---- valid containers around near-miss content (content.go) ----
+	poolScratchDirs()
+	x.controlContentScenario(r)
+	x.streamScenario(r)
+	removeScratchDirs()
+
 	// ---- large inputs: long runs of one byte and very many members (a reader that does work per byte or per
 	// member - recursion, allocation - shows only here). 4 shards: at most 4 of these are in memory / on the stack
 	// at once; a stack overflow or out-of-memory kills the child process and is reported by the supervisor. ----
